@@ -429,7 +429,7 @@ def run(ctx):
                 ctx.ob("C12.R6", o.where, o.ok, o.what, key=o.key, loc=o.loc, detail=o.detail)
     ctx.floor("C12.R6", 99 + 16 + 20 + 3)
     from . import C04
-    C04.shared_obligations(ctx, "C12.R7", {"BitsInteger", "BytesInteger", "FormatField", "Padded", "Select", "IfThenElse", "Enum", "FlagsEnum", "Hex", "HexDump", "Struct", "FocusedSeq", "Array"}, with_expressions=True)
+    C04.shared_obligations(ctx, "C12.R7", {"BitsInteger", "BytesInteger", "FormatField", "Padded", "Select", "IfThenElse", "Enum", "FlagsEnum", "Hex", "HexDump", "Struct", "FocusedSeq", "Array", "PrefixedArray", "If", "Optional", "Padding", "BitStruct", "Bitwise", "Bytewise"}, with_expressions=True)
     ctx.floor("C12.R7", 10)
 
     # ---------------------------------------------------------------- R1
@@ -471,7 +471,7 @@ def run(ctx):
     hexrel = [r for r in M.modules if r.endswith("hex.py")][0]
     base_of = {"int": "int", "bytes": "bytes", "dict": "dict"}
     for cls in ("Hex", "HexDump"):
-        fi, paths = own_method_paths(ctx, cls, "_decode")
+        fi, paths = method_paths(ctx, cls, "_decode")        # own or inherited (HexDump may be a subclass of Hex that overrides class-level constants)
         for p in paths:
             if not p.returns:
                 continue
@@ -479,7 +479,10 @@ def run(ctx):
             if r == OBJ:
                 continue
             # isinstance(obj, T) guard selects a display subclass of T
-            g = [c for c in p.guards() if c[0] == "call" and c[1] == ("free", "isinstance") and c[2][0] == OBJ]
+            flatg = []
+            for c in p.guards():
+                flatg.extend(c[2] if c[0] == "bool" and c[1] == "and" else (c,))
+            g = [c for c in flatg if c[0] == "call" and c[1] == ("free", "isinstance") and c[2][0] == OBJ]
             T = g[-1][2][1][1] if g else None
             dc = None
             if r[0] == "new":
@@ -490,7 +493,7 @@ def run(ctx):
             extra = set(ci.methods) - {"__str__", "new"} if ci else {"?"}
             ok = ci is not None and ci.relpath == hexrel and ci.bases == [T] and not extra
             ctx.ob("C12.R5", fi, ok, "%s._decode wraps a %s in %s, a subclass of %s that only changes __str__" % (cls, T, dc, T), key="%s %s" % (cls, dc))
-        fe, pe = own_method_paths(ctx, cls, "_encode")
+        fe, pe = method_paths(ctx, cls, "_encode")
         ctx.ob("C12.R5", fe, len(pe) == 1 and pe[0].retval == OBJ, "%s._encode is the identity" % cls, key="%s encode" % cls)
         subs = [e for p in paths for e in p.events if e.kind == "SUB"]
         ctx.ob("C12.R5", fi, all(e["m"] in PROTO_SUB and e.a.get("ctx") == CTX and e.a.get("path") == PATH for e in subs),
@@ -507,8 +510,21 @@ def run(ctx):
         ok = bool(news) and all(tuple(e["args"]) == (("param", first),) for e in news) and all(p.retval is not None and p.retval[0] == "new" and p.retval[1] == dcls for p in ps if p.returns)
         ctx.ob("C12.R5", fn, ok, "%s.new wraps its first argument unchanged (no arithmetic on the value: the wrapper is display-only)" % dcls, key="%s value unchanged" % dcls)
     for cls in ("Hex", "HexDump"):
-        fi, paths = own_method_paths(ctx, cls, "_decode")
+        fi, paths = method_paths(ctx, cls, "_decode")
         calls = [e for p in paths for e in p.events if (e.kind == "CALL" and e["func"][0] == "attr" and e["func"][2] == "new") or (e.kind == "NEW" and str(e["cls"]).startswith("Hex"))]
         ctx.ob("C12.R5", fi, bool(calls) and all(tuple(e["args"])[:1] == (OBJ,) for e in calls), "%s._decode hands the display class the parsed object itself" % cls, key="%s passes obj" % cls)
-    ctx.floor("C12.R5", 9 + 3)
+    # a display wrapper accepts whatever the bare construct produced: _decode either cannot fail, or every sub-construct call in it that can
+    # (sizeof of a variable-size construct raises SizeofError) sits in a handler for that error -- Hex(x) must parse what x parses
+    for cls in ("Hex", "HexDump"):
+        fi, paths = method_paths(ctx, cls, "_decode")
+        risky = {}
+        for p in paths:
+            for e in p.events:
+                if e.kind == "SUB" and e["m"] in ("_sizeof", "sizeof", "_actualsize"):
+                    covered = any(t.kind == "TRY" and t["tid"] in (e.trys or ()) and any(set(h) & {"SizeofError", "ConstructError", "Exception", "BaseException", "*"} for h in t["handlers"]) for t in p.events)
+                    risky[id(e.node)] = (risky.get(id(e.node), True) and covered, e)
+        raises = [p for p in paths if p.outcome[0] == "raise" and p.outcome[1].get("cls") is not None]
+        ctx.ob("C12.R5", fi, all(okk for okk, _ in risky.values()) and not raises, "%s._decode cannot reject a value the wrapped construct parsed (%s)" % (
+            cls, "asks the wrapped construct for its size outside a SizeofError handler" if risky and not all(okk for okk, _ in risky.values()) else ("raises" if raises else "no failing call")), key="%s decode total" % cls)
+    ctx.floor("C12.R5", 9 + 5)
     ctx.control("C12.R2", expr_term(ast.parse("Select(Pass, subcon)", mode="eval").body, {"subcon"}) != ("ctor", "Select", (("param", "subcon"), ("free", "Pass")), ()))
